@@ -174,6 +174,10 @@ var (
 		{{"Cache-Control", "no-cache"}, {"X-Trace", "abc def"}},
 		{{"Set-Cookie", "a=1; Path=/"}, {"Set-Cookie", "b=2"}, {"Content-Type", "application/json"}},
 		{{"X-Long-R", strings.Repeat("r9876543210", 60)}},
+		// values with characters that mean something to formatting, quoting or escaping layers
+		{{"Location", "/search?q=100%25&next=%2Fhome%20page"}, {"X-Progress", "100%"}},
+		{{"X-Format", "%s %d %v %!"}, {"X-Quote", `say "hi" \ back\slash`}, {"Content-Type", "text/plain; charset=utf-8"}},
+		{{"X-Empty", ""}, {"X-Unicode", "gr\u00fc\u00dfe"}},
 	}
 	writeSizes = []int{0, 1, 13, 100, 1000, 1900, 2047, 2048, 2049, 3000, 4096, 5000}
 )
